@@ -314,6 +314,10 @@ def run(ctx):
         text = build(song, sync, events, tracks, list(p))
         kind, val, _ = parse_logged(text)
         d = _obs_digest(val) if kind == "chart" else "raised:" + exc_name(val)
+        # "the parsed chart is independent of section order": as an observation, and as a VALUE - the two charts compare equal,
+        # both ways round (seeded/C06j: tracks kept in an OrderedDict, whose equality looks at the order of insertion)
+        if kind == "chart" and not (val == base and base == val and not (val != base)):
+            d += "|not-equal-to-the-chart-parsed-from-the-base-order"
         recs.append({"id": f"perm-{k}", "props": ["C06"], "kind": "same", "what": "independent-of-section-order",
                      "a": base_d, "b": d})
         texts[f"perm-{k}"] = text
@@ -332,6 +336,8 @@ def run(ctx):
                 else:
                     kind, val, _ = parse_logged(text.replace("\n", nl), path_mode=(nl, bom))
                 d = _obs_digest(val) if kind == "chart" else "raised:" + exc_name(val)
+                if kind == "chart" and not (val == base and base == val):
+                    d += "|not-equal-to-the-chart-parsed-from-the-base-text"
                 recs.append({"id": f"nl-{k}", "props": ["C06"], "kind": "same",
                              "what": "independent-of-newline-style-and-byte-order-mark", "a": base_d, "b": d})
                 texts[f"nl-{k}"] = repr((nl, bom, entry))
